@@ -1,0 +1,8 @@
+// Copyright 2024 RunReveal Inc.
+// SPDX-License-Identifier: Apache-2.0
+
+//go:build !verif
+
+package parser
+
+func verifSite(site int) {}
